@@ -88,6 +88,12 @@ func (e *Expr) child(out *[]string, c *Expr, full bool, need bool) {
 func (e *Expr) render(out *[]string, full bool) {
 	switch e.K {
 	case "lit", "ident", "env", "this", "empty":
+		// a quantity literal is two tokens (number, unit): blanks and comments may stand between them
+		if e.K == "lit" && len(e.Text) > 2 && e.Text[0] >= '0' && e.Text[0] <= '9' && strings.Count(e.Text, " ") == 1 && !strings.HasSuffix(e.Text, " ") {
+			num, unit, _ := strings.Cut(e.Text, " ")
+			*out = append(*out, num, unit)
+			break
+		}
 		*out = append(*out, e.Text)
 	case "member":
 		r := e.Kids[0]
